@@ -13,7 +13,8 @@ use std::path::PathBuf;
 use torrent_bootstrap::verif_shim::ctl;
 use torrent_bootstrap::{OrchestratorOptions, Torrent};
 
-pub fn main(args: &[String]) -> i32 {
+pub fn main(args: &[std::ffi::OsString]) -> i32 {
+    let text = |i: usize| -> String { args[i].to_string_lossy().into_owned() };
     let mut export = PathBuf::new();
     let mut scan: Vec<PathBuf> = Vec::new();
     let mut torrents: Vec<PathBuf> = Vec::new();
@@ -24,25 +25,27 @@ pub fn main(args: &[String]) -> i32 {
     let mut sched_fs_seed: Option<u64> = None;
     let mut i = 0;
     while i < args.len() {
-        match args[i].as_str() {
+        match text(i).as_str() {
             "--export" => { export = PathBuf::from(&args[i + 1]); i += 2; }
             "--scan" => { scan.push(PathBuf::from(&args[i + 1])); i += 2; }
             "--torrent" => { torrents.push(PathBuf::from(&args[i + 1])); i += 2; }
-            "--threads" => { threads = args[i + 1].parse().unwrap(); i += 2; }
+            "--threads" => { threads = text(i + 1).parse().unwrap(); i += 2; }
             "--resize" => { resize = true; i += 1; }
-            "--fault" => { config.faults.push(args[i + 1].parse().unwrap()); i += 2; }
-            "--meta-fault" => { config.meta_faults.push(args[i + 1].parse().unwrap()); i += 2; }
+            "--fault" => { config.faults.push(text(i + 1).parse().unwrap()); i += 2; }
+            "--meta-fault" => { config.meta_faults.push(text(i + 1).parse().unwrap()); i += 2; }
             "--partial" => {
-                let mut it = args[i + 1].split(',');
+                let pair = text(i + 1);
+                let mut it = pair.split(',');
                 let k: usize = it.next().unwrap().parse().unwrap();
                 let j: usize = it.next().unwrap_or("0").parse().unwrap();
                 config.partial = Some((k, j));
                 i += 2;
             }
-            "--sched" => { sched_seed = Some(args[i + 1].parse().unwrap()); i += 2; }
-            "--sched-fs" => { sched_fs_seed = Some(args[i + 1].parse().unwrap()); i += 2; }
+            "--sched" => { sched_seed = Some(text(i + 1).parse().unwrap()); i += 2; }
+            "--sched-fs" => { sched_fs_seed = Some(text(i + 1).parse().unwrap()); i += 2; }
             "--crash" => {
-                let mut it = args[i + 1].split(',');
+                let pair = text(i + 1);
+                let mut it = pair.split(',');
                 let k: usize = it.next().unwrap().parse().unwrap();
                 let j: usize = it.next().unwrap_or("0").parse().unwrap();
                 config.crash = Some((k, j));
